@@ -193,8 +193,8 @@ theorem toksList_eq (first : Bool) (xs : List J) :
   | nil => simp [toksList, joinT]
   | cons x r ih => simp [toksList, joinT, ih]
 
-theorem toksEntries_eq (first : Bool) (kvs : List (List Char × J)) :
-    toksEntries first kvs = joinT first (kvs.map fun kv => .str kv.1 :: .colon :: toks kv.2) := by
+theorem toksEntries_eq (first : Bool) (kvs : List (Key × J)) :
+    toksEntries first kvs = joinT first (kvs.map fun kv => keyTok kv.1 :: .colon :: toks kv.2) := by
   induction kvs generalizing first with
   | nil => simp [toksEntries, joinT]
   | cons kv r ih => obtain ⟨k, v⟩ := kv; simp [toksEntries, joinT, ih]
@@ -225,7 +225,7 @@ theorem allSimple?_map {xs : List J} {ss : List Simple} (h : allSimple? xs = som
       · exact hall y hy
     · cases h
 
-theorem allSimpleD?_map {kvs : List (List Char × J)} {ss : List (List Char × Simple)}
+theorem allSimpleD?_map {kvs : List (Key × J)} {ss : List (Key × Simple)}
     (h : allSimpleD? kvs = some ss) :
     ss = kvs.map (fun kv => (kv.1, toSimple kv.2)) ∧
       ∀ kv, kv ∈ kvs → kv.2.simple? = some (toSimple kv.2) := by
